@@ -207,18 +207,27 @@ def mapping_chain_cases(ctx, o, n):
     rng = ctx.rng
     for i in range(n):
         dim = rng.choice([2, 2, 3])
-        M = Mapping('Mc5%d_%d' % (dim, i % 3), dim=dim)
-        D = M((Square if dim == 2 else Cube)('Ac5%d_%d' % (dim, i % 3)))
-        u = element_of(ScalarFunctionSpace('Vc5%d_%d' % (dim, i % 3), D), name='uc5%d' % dim)
+        # a surface mapping (ldim 2 < pdim 3): the chain rule runs over all pdim components (seeded change C05-7
+        # summed over ldim and lost the last one)
+        surf = dim == 2 and (i % 4 == 3 or (i >= 9 and rng.random() < 0.3))
+        pdim = 3 if surf else dim
+        if surf:
+            M = Mapping('Ms5_%d' % (i % 3), ldim=2, pdim=3)
+        else:
+            M = Mapping('Mc5%d_%d' % (dim, i % 3), dim=dim)
+        D = M((Square if dim == 2 else Cube)('A%s5%d_%d' % ('s' if surf else 'c', dim, i % 3)))
+        u = element_of(ScalarFunctionSpace('V%s5%d_%d' % ('s' if surf else 'c', dim, i % 3), D), name='u%s5%d' % ('s' if surf else 'c', dim))
         xs = list(LOGI[:dim])
         ops = [dv.dx1, dv.dx2, dv.dx3][:dim]
-        mi, mj = M[rng.randrange(dim)], M[rng.randrange(dim)]
+        mi, mj = M[rng.randrange(pdim)], M[rng.randrange(pdim)]
+        if surf and rng.random() < 0.7:
+            mi = M[2]
         x = rng.choice(xs)
         shapes = [x * mi, x * sympy.sin(mi), mj ** 2 + x ** 3, x * rng.choice(xs) * mi, sympy.exp(mi) * mj + x,
                   mi * mj, x ** 2 * mi + mj, u * x * mi, u * sympy.sin(mi) + x * mj * u]
         e = shapes[i % len(shapes)] if i < len(shapes) else rng.choice(shapes)
         chain = [rng.choice(ops) for _ in range(rng.choice([1, 1, 2]))]
-        key = 'corpus:mapping-chain:%d' % i if i < len(shapes) else None
+        key = 'corpus:mapping-chain:%d' % i if i < len(shapes) + 3 else None
         name = '%s(%s)' % ('∘'.join(op.__name__ for op in chain), e)
         try:
             with time_limit(20):
@@ -237,6 +246,8 @@ def mapping_chain_cases(ctx, o, n):
              sympy.Rational(1, 5) * xs[0] + xs[1] + sympy.Rational(1, 10) * xs[0] ** 2]
         if dim == 3:
             F = [F[0] + sympy.Rational(1, 3) * xs[2], F[1], xs[2] + sympy.Rational(1, 4) * xs[0] * xs[2]]
+        if surf:
+            F = F + [xs[0] ** 2 + sympy.Rational(1, 3) * xs[0] * xs[1] + sympy.Rational(1, 2) * xs[1]]
         try:
             with time_limit(20):
                 ins = MapInst(rng, dim, F, {})
@@ -249,7 +260,7 @@ def mapping_chain_cases(ctx, o, n):
         except (NotImplementedError, Timeout):
             o.count('skipped:mapping-chain')
             continue
-        o.count('mapping-chain:%d' % len(chain))
+        o.count('mapping-chain:%d%s' % (len(chain), ':surface' if surf else ''))
         if ok is False:
             o.fail(key or ('mapping-chain:' + name[:200]),
                    '%s = %s is not the logical derivative of its argument when M is instantiated by %s' % (name, str(r)[:300], F))
